@@ -408,38 +408,50 @@ def plain_sort(rec):
     rec.run('PopulationFilter/sort_times', ['chi._population_filters.PopulationFilter.sort_times'], 'Pκ', go)
 
 
+def reference_value(cls, y, x):
+    """documented estimators in log space (scipy logsumexp); y (n_ids, n_obs, n_times) with NaN = missing, x (n_sim, n_obs, n_times)"""
+    from scipy.special import logsumexp as lse
+    n_s = x.shape[0]
+    total = 0.0
+    for r in range(y.shape[1]):
+        for j in range(y.shape[2]):
+            xs = x[:, r, j]
+            ys = y[:, r, j]
+            ys = ys[~np.isnan(ys)]
+            if cls == 'GaussianFilter':
+                mu, var = np.mean(xs), np.var(xs, ddof=1)
+                total += float(np.sum(-(ys - mu) ** 2 / (2 * var) - 0.5 * np.log(2 * np.pi * var)))
+            elif cls == 'LogNormalFilter':
+                lx = np.log(xs)
+                mu, var = np.mean(lx), np.var(lx, ddof=1)
+                total += float(np.sum(-(np.log(ys) - mu) ** 2 / (2 * var) - 0.5 * np.log(2 * np.pi * var) - np.log(ys)))
+            elif cls == 'GaussianKDEFilter':
+                h2 = (4 / 3 / n_s) ** 0.4 * np.var(xs, ddof=1)
+                for v in ys:
+                    total += lse(-(v - xs) ** 2 / (2 * h2)) - np.log(n_s) - 0.5 * np.log(2 * np.pi * h2)
+            elif cls == 'LogNormalKDEFilter':
+                lx = np.log(xs)
+                h2 = (4 / 3 / n_s) ** 0.4 * np.var(lx, ddof=1)
+                for v in ys:
+                    total += lse(-(np.log(v) - lx) ** 2 / (2 * h2)) - np.log(n_s) - 0.5 * np.log(2 * np.pi * h2) - np.log(v)
+            else:
+                K = 2
+                blocks = xs.reshape(K, n_s // K)
+                mu, var = blocks.mean(axis=1), blocks.var(axis=1, ddof=1)
+                for v in ys:
+                    total += lse(-(v - mu) ** 2 / (2 * var) - 0.5 * np.log(2 * np.pi * var)) - np.log(K)
+    return float(total)
+
+
+def make_filter(real, cls, y):
+    return getattr(real, cls)(y, **({'n_kernels': 2} if 'Mixture' in cls else {}))
+
+
 def ieee_range(rec):
     """bounded (never counted as proved): the kernel / mixture filters at data with one measurement that every simulated value fits hundreds
     of nats worse than the others -- the documented value is finite (log of a sum of tiny densities), real arithmetic cannot see a
     max-shift that is taken over the wrong axis; with and without missing-value padding"""
     import chi as real
-    from scipy.special import logsumexp as lse
-
-    def ref(cls, y, x):
-        # y (n_ids, n_obs, n_times) with NaN = missing, x (n_sim, n_obs, n_times)
-        n_s = x.shape[0]
-        total = 0.0
-        for r in range(y.shape[1]):
-            for j in range(y.shape[2]):
-                xs = x[:, r, j]
-                ys = y[:, r, j]
-                ys = ys[~np.isnan(ys)]
-                if cls == 'GaussianKDEFilter':
-                    h2 = (4 / 3 / n_s) ** 0.4 * np.var(xs, ddof=1)
-                    for v in ys:
-                        total += lse(-(v - xs) ** 2 / (2 * h2)) - np.log(n_s) - 0.5 * np.log(2 * np.pi * h2)
-                elif cls == 'LogNormalKDEFilter':
-                    lx = np.log(xs)
-                    h2 = (4 / 3 / n_s) ** 0.4 * np.var(lx, ddof=1)
-                    for v in ys:
-                        total += lse(-(np.log(v) - lx) ** 2 / (2 * h2)) - np.log(n_s) - 0.5 * np.log(2 * np.pi * h2) - np.log(v)
-                else:
-                    K = 2
-                    blocks = xs.reshape(K, n_s // K)
-                    mu, var = blocks.mean(axis=1), blocks.var(axis=1, ddof=1)
-                    for v in ys:
-                        total += lse(-(v - mu) ** 2 / (2 * var) - 0.5 * np.log(2 * np.pi * var)) - np.log(K)
-        return float(total)
     cases = [(cls, outlier, pad) for cls in ('GaussianKDEFilter', 'LogNormalKDEFilter', 'GaussianMixtureFilter') for outlier in (None, 'mild', 'extreme') for pad in (False, True)]
 
     def one(case):
@@ -454,9 +466,8 @@ def ieee_range(rec):
         if pad:
             y = np.concatenate([y, np.full((1, 1, 3), np.nan)], axis=0)
             y[0, 0, 0] = np.nan
-        want = ref(cls, y, x)
-        flt = getattr(real, cls)(y, **({'n_kernels': 2} if 'Mixture' in cls else {}))
-        got = float(flt.compute_log_likelihood(x))
+        want = reference_value(cls, y, x)
+        got = float(make_filter(real, cls, y).compute_log_likelihood(x))
         if not (np.isfinite(got) and abs(got - want) <= 1e-6 * max(1.0, abs(want))):
             return '%s, %s outlier, %s missing values: log-likelihood %r, the documented estimator gives %r' % (cls, outlier or 'no', 'with' if pad else 'without', got, want)
         return None
@@ -466,9 +477,64 @@ def ieee_range(rec):
                      'distinct by (filter, outlier, padding)', exhaustive=True)
 
 
+def padding_and_order(rec):
+    """bounded (never counted as proved): the data-dependent code paths of the constructors and of sort_times (NaN patterns are concrete data,
+    which the 0/1-weight model of the proof treats as given): all-missing individuals anywhere, permuted individuals, missing counts that
+    differ between time points, and a re-ordering of the time axis after construction"""
+    import chi as real
+    variants = ['as is', 'all-missing individual first', 'all-missing individual in the middle', 'all-missing individual last', 'individuals permuted', 'sort_times after construction',
+                'sort_times after construction (padded)']
+    cases = [(cls, v) for cls in FILTERS for v in variants]
+
+    def one(case):
+        cls, variant = case
+        rng = np.random.default_rng(11)
+        x = 5.0 + np.array([0.05, 0.3, 1.0])[None, None, :] * rng.normal(size=(6, 2, 3))        # variances differ between the time points
+        y = 5.0 + 0.1 * rng.normal(size=(4, 2, 3))
+        y[0, 0, 0] = np.nan
+        y[1, 0, 0] = np.nan
+        y[2, 1, 2] = np.nan                                                                       # missing counts differ between time points and observables
+        want = reference_value(cls, y, x)
+        pad = np.full((1, 2, 3), np.nan)
+        order = None
+        if variant == 'all-missing individual first':
+            y2 = np.concatenate([pad, y])
+        elif variant == 'all-missing individual in the middle':
+            y2 = np.concatenate([y[:2], pad, y[2:]])
+        elif variant == 'all-missing individual last':
+            y2 = np.concatenate([y, pad])
+        elif variant == 'individuals permuted':
+            y2 = np.concatenate([pad, y])[[3, 0, 4, 1, 2]]
+        elif variant.startswith('sort_times'):
+            y2 = np.concatenate([y[:1], pad, y[1:]]) if 'padded' in variant else y
+            order = np.array([2, 0, 1])
+        else:
+            y2 = y
+        y_in = np.array(y2, copy=True)
+        flt = make_filter(real, cls, y_in)
+        xs = x
+        if order is not None:
+            flt.sort_times(order)
+            xs = x[:, :, order]
+        try:
+            got = float(flt.compute_log_likelihood(xs))
+            sc, se = flt.compute_sensitivities(xs)
+        except Exception as ex:
+            return '%s, %s: evaluation raises %r' % (cls, variant, ex)
+        if not (np.isfinite(got) and abs(got - want) <= 1e-8 * max(1.0, abs(want)) and abs(float(sc) - want) <= 1e-8 * max(1.0, abs(want))):
+            return '%s, %s: log-likelihood %r (score %r), the documented estimator on the measured values gives %r' % (cls, variant, got, float(sc), want)
+        if np.shape(se) != xs.shape:
+            return '%s, %s: sensitivities of shape %s for simulated measurements of shape %s' % (cls, variant, np.shape(se), xs.shape)
+        return None
+    rec.native_check('padding+order', ['chi._population_filters.PopulationFilter.__init__', 'chi._population_filters.PopulationFilter.sort_times'] +
+                     ['chi._population_filters.%s.compute_log_likelihood' % c for c in FILTERS], cases, one,
+                     '5 filters x {as is, all-missing individual first / middle / last, individuals permuted, sort_times after construction (with and without padding)}; 4 individuals, 2 observables, '
+                     '3 time points with different simulated variances and different missing counts; distinct by (filter, variant)', exhaustive=True)
+
+
 def _more_tasks():
     out = [('mixture:K=2', lambda rec: mixture(rec, 2)), ('mixture:K=3', lambda rec: mixture(rec, 3) if rec.tier == 'thorough' else None),
-           ('plain-sort', plain_sort), ('ieee-range', ieee_range)]
+           ('plain-sort', plain_sort), ('ieee-range', ieee_range), ('padding-order', padding_and_order)]
     for blocks in [(1, 1), (2, 1), (1, 2), (1, 1, 1), (2, 2), (1, 2, 1)]:
         def run(rec, blocks=blocks):
             if sum(blocks) == 4 and rec.tier == 'quick' and blocks != (1, 2, 1):
